@@ -274,6 +274,8 @@ pub struct Profile {
     pub prober_weights: Vec<(K, u32)>,
     /// how async scripts are decoded (see `decode_script`)
     pub script_bias: u8,
+    /// allow a generated backlog (see `Case::decode`)
+    pub prefill: bool,
 }
 
 fn pick_weighted(w: &[(K, u32)], b: u8) -> K {
@@ -381,6 +383,27 @@ impl Case {
                 b: r[3],
             })
             .collect();
+        // A generated backlog: one case in eight on a roomy channel starts with 24 or 70
+        // `try_send`s in front of the first sending thread's program (ordinary operations, so
+        // every oracle applies): long queues, grown / wrapped buffers, drains of 64+ values.
+        let backlog = match self.cfg[1] >> 5 {
+            7 => 70usize,
+            6 => 24,
+            _ => 0,
+        };
+        let room = match cap {
+            Cap::Unbounded => usize::MAX,
+            Cap::N(c) => c,
+        };
+        let tagged_256 = !matches!(pay, Pay::U8 | Pay::U16 | Pay::U32 | Pay::U64 | Pay::U128);
+        if p.prefill && backlog > 0 && room >= 17 && tagged_256 {
+            if let Some(t) = grants.iter().position(|g| g.send != 0) {
+                let n = backlog.min(room);
+                let mut ops: Vec<Op> = (0..n).map(|_| Op { k: K::TrySend, h: 0, a: 0, b: 0 }).collect();
+                ops.extend(threads[t].iter().copied());
+                threads[t] = ops;
+            }
+        }
         let mut sched = self.sched.clone();
         sched.truncate(p.max_sched);
         Program {
